@@ -140,6 +140,19 @@ impl Run {
             let max_w = (u64::MAX as u128) / wdiv;
             cfgv["maxW"] = json!(if max_w < (1 << 30) { max_w as i64 } else { -1 });
             let members: Vec<Member> = cfg["members"].as_array().unwrap().iter().map(|m| Member { addr: if s(m, "a") == "invalid" { "not-an-address".to_string() } else { w.addr(&s(m, "a")).to_string() }, weight: ((n(m, "w") as u128) * wdiv).min(u64::MAX as u128) as u64 }).collect();
+            // a crowd of weightless members (weight 0 is a valid weight): the group has more members than any page or
+            // batch size of the code, while totals, weights and thresholds are those of the three tracked members
+            let crowd = cfg.get("crowd").and_then(|x| x.as_u64()).unwrap_or(0);
+            let mut members = members;
+            if crowd > 0 {
+                // (addresses that sort before everybody else's: a listing's first pages hold only the crowd)
+                let mut cands: Vec<Addr> = (0..400).map(|i| w.app.api().addr_make(&format!("crowd-candidate-{i}"))).collect();
+                cands.sort();
+                for (j, a) in cands.into_iter().take(crowd as usize).enumerate() {
+                    w.register(&format!("crowd{j}"), &a);
+                    members.push(Member { addr: a.to_string(), weight: 0 });
+                }
+            }
             let msg = cw4_group::msg::InstantiateMsg { admin, members };
             let code = w.app.store_code(group_code());
             r = call(&mut w, |w| {
@@ -187,6 +200,7 @@ impl Run {
             w.smart(&self.c, &cw4_group::msg::QueryMsg::TotalWeight { at_height: None }).unwrap()
         };
         let mut listed = vec![];
+        let mut walked = 0usize; // weightless crowd members met on the way
         let mut cursor: Option<String> = None;
         loop {
             // small pages on purpose: "the listed members" are what a client gets walking the listing
@@ -202,9 +216,17 @@ impl Run {
             }
             cursor = Some(r.members.last().unwrap().addr.clone());
             for m in r.members {
-                listed.push(json!({"a": w.name_of(&m.addr), "w": self.wdown(Some(m.weight), anom)}));
+                let name = w.name_of(&m.addr);
+                if name.starts_with("crowd") {
+                    if m.weight != 0 {
+                        anom.push(format!("weightless member {name} listed with weight {}", m.weight));
+                    }
+                    walked += 1;
+                    continue;
+                }
+                listed.push(json!({"a": name, "w": self.wdown(Some(m.weight), anom)}));
             }
-            if listed.len() > 50 {
+            if listed.len() + walked > 120 {
                 break;
             }
         }
@@ -289,6 +311,15 @@ impl Run {
                 let sender = self.w.addr(&by);
                 let add: Vec<Member> = args["add"].as_array().unwrap().iter().map(|m| Member { addr: self.w.addr(&s(m, "a")).to_string(), weight: self.wup(n(m, "w")) }).collect();
                 let remove: Vec<String> = args["remove"].as_array().unwrap().iter().map(|m| self.w.addr(m.as_str().unwrap()).to_string()).collect();
+                let mut add = add;
+                if args.get("bulk").and_then(|x| x.as_bool()).unwrap_or(false) {
+                    // the same call also re-submits every weightless member with weight 0 (a large batch, no change)
+                    let mut i = 0;
+                    while let Some(a) = self.w.addrs.get(&format!("crowd{i}")) {
+                        add.push(Member { addr: a.to_string(), weight: 0 });
+                        i += 1;
+                    }
+                }
                 let m = cw4_group::msg::ExecuteMsg::UpdateMembers { remove, add };
                 call(&mut self.w, |w| w.app.execute_contract(sender, c.clone(), &m, &[]))
             }
@@ -362,9 +393,18 @@ impl Run {
             let to = self.w.name_of(ex["contract_addr"].as_str().unwrap_or(""));
             let body: Value = Binary::from_base64(ex["msg"].as_str().unwrap_or("")).ok().and_then(|b| from_json::<Value>(&b).ok()).unwrap_or(Value::Null);
             if let Some(h) = body.get("member_changed_hook") {
-                let diffs: Vec<Value> = h["diffs"].as_array().unwrap_or(&vec![]).iter().map(|d| {
-                    json!({"a": self.w.name_of(d["key"].as_str().unwrap_or("")), "old": self.wdown(d["old"].as_u64(), anom), "new": self.wdown(d["new"].as_u64(), anom)})
-                }).collect();
+                let mut diffs: Vec<Value> = vec![];
+                for d in h["diffs"].as_array().unwrap_or(&vec![]) {
+                    let name = self.w.name_of(d["key"].as_str().unwrap_or(""));
+                    if name.starts_with("crowd") {
+                        // entries of the weightless crowd are not part of the model; they must say 0 -> 0
+                        if d["old"].as_u64() != Some(0) || d["new"].as_u64() != Some(0) {
+                            anom.push(format!("hook entry for weightless member {name}: {} -> {}", d["old"], d["new"]));
+                        }
+                        continue;
+                    }
+                    diffs.push(json!({"a": name, "old": self.wdown(d["old"].as_u64(), anom), "new": self.wdown(d["new"].as_u64(), anom)}));
+                }
                 return json!({"k":"hook","to":to,"diffs":diffs,"amt":0});
             }
             if let Some(t) = body.get("transfer") {
@@ -434,7 +474,7 @@ pub fn rand_cfg(rng: &mut Rng) -> Value {
             // an entry whose address does not validate: the whole instantiate must be refused
             members.push(json!({"a":"invalid","w":rng.range(1, top)}));
         }
-        json!({"flavour":"group","admin":admin,"members":members,"wscale":wscale})
+        json!({"flavour":"group","admin":admin,"members":members,"wscale":wscale,"crowd": if rng.chance(1, 4) { 40 } else { 0 }})
     }
 }
 
@@ -462,7 +502,8 @@ pub fn random_run(rng: &mut Rng, run_no: u64, len: usize, out: &mut Out) {
                     if rng.chance(1, 10) { remove.push(json!(u)); }
                 }
                 if rng.chance(1, 15) && !add.is_empty() { let d = add[0].clone(); add.push(d); }
-                json!({"act":"update_members","by":adm,"args":{"add":add,"remove":remove}})
+                let bulk = run.w.addrs.contains_key("crowd0") && rng.chance(1, 4);
+                json!({"act":"update_members","by":adm,"args":{"add":add,"remove":remove,"bulk":bulk}})
             }
             0..=24 => {
                 let staked = obs["stake"][&who].as_i64().unwrap_or(0);
